@@ -64,10 +64,10 @@ def tlc_design(name, props, workdir, timeout, workers=12, emit_rate=None, seed=1
     else:
         open(cfgp, "w").write(models.check_cfg(m, m["props"] or props))
     meta = f"{workdir}/meta_{name}_{'e' if emit_rate else 'c'}"
-    env = dict(os.environ, JAVA_TOOL_OPTIONS="-DTLA-Library=/verif/spec")
+    env = dict(os.environ, JAVA_TOOL_OPTIONS="-DTLA-Library=" + run.VERIF + "/spec")
     cmd = ["timeout", str(timeout), "tlc", "-workers", str(workers), "-seed", str(seed), "-metadir", meta, "-cleanup",
-           "-noGenerateSpecTE", "-config", cfgp, f"/verif/spec/mc/MC_{name}.tla"]
-    p = subprocess.run(cmd, cwd="/verif/spec/mc", env=env, capture_output=True, text=True)
+           "-noGenerateSpecTE", "-config", cfgp, f"{run.VERIF}/spec/mc/MC_{name}.tla"]
+    p = subprocess.run(cmd, cwd=run.VERIF + "/spec/mc", env=env, capture_output=True, text=True)
     shutil.rmtree(meta, ignore_errors=True)
     out = p.stdout
     st = STATS.search(out)
@@ -83,9 +83,9 @@ def tlc_design(name, props, workdir, timeout, workers=12, emit_rate=None, seed=1
 def tlc_live(name, workdir, timeout=1800):
     """ML_<name>: temporal property `Answered` under fairness.  Returns (generated, distinct)."""
     meta = f"{workdir}/meta_live_{name}"
-    env = dict(os.environ, JAVA_TOOL_OPTIONS="-DTLA-Library=/verif/spec")
+    env = dict(os.environ, JAVA_TOOL_OPTIONS="-DTLA-Library=" + run.VERIF + "/spec")
     p = subprocess.run(["timeout", str(timeout), "tlc", "-workers", "8", "-metadir", meta, "-cleanup", "-noGenerateSpecTE",
-                        "-config", f"ML_{name}.cfg", f"ML_{name}.tla"], cwd="/verif/spec/mc", env=env, capture_output=True, text=True)
+                        "-config", f"ML_{name}.cfg", f"ML_{name}.tla"], cwd=run.VERIF + "/spec/mc", env=env, capture_output=True, text=True)
     shutil.rmtree(meta, ignore_errors=True)
     st = STATS.search(p.stdout)
     if p.returncode == 124 or "Error:" in p.stdout or not st or "No error has been found" not in p.stdout:
